@@ -517,21 +517,21 @@ void h_loom_add_proc(void)
 	(P0(l) == NULL || (__CPROVER_is_fresh(P0(l), sizeof(struct proc)) && \
 		(P0(l)->hh.next == NULL || (__CPROVER_is_fresh(P0(l)->hh.next, sizeof(struct proc)) && \
 			(P1(l)->hh.next == NULL || (__CPROVER_is_fresh(P1(l)->hh.next, sizeof(struct proc)) && P2(l)->hh.next == NULL)))))))
-int w_rm_n, w_rm_rank[3], w_rm_old_min, w_rm_old_enabled;
-#define RM_HAS(k) (w_rm_n > (k) && w_rm_rank[k] >= 0)
-#define RM_LACKS(k) (w_rm_n > (k) && w_rm_rank[k] < 0)
+int w_rm_n, w_rm_rank0, w_rm_rank1, w_rm_rank2, w_rm_old_min, w_rm_old_enabled;   /* scalars: the replay runner passes no array witnesses */
+#define RM_HAS(k) (w_rm_n > (k) && w_rm_rank##k >= 0)
+#define RM_LACKS(k) (w_rm_n > (k) && w_rm_rank##k < 0)
 #define RM_SOME (RM_HAS(0) || RM_HAS(1) || RM_HAS(2))
 #define RM_NONE_LACKS (!RM_LACKS(0) && !RM_LACKS(1) && !RM_LACKS(2))
 #define MIN2(a, b) ((a) < (b) ? (a) : (b))
-#define RM_MIN MIN2(w_rm_n > 0 ? w_rm_rank[0] : INT_MAX, MIN2(w_rm_n > 1 ? w_rm_rank[1] : INT_MAX, w_rm_n > 2 ? w_rm_rank[2] : INT_MAX))
+#define RM_MIN MIN2(w_rm_n > 0 ? w_rm_rank0 : INT_MAX, MIN2(w_rm_n > 1 ? w_rm_rank1 : INT_MAX, w_rm_n > 2 ? w_rm_rank2 : INT_MAX))
 
 int c_loom_set_rank_min(struct loom *loom)
 __CPROVER_requires(__CPROVER_is_fresh(loom, sizeof(*loom)) && LOOM_PROCS3_PRE(loom))
 __CPROVER_requires(DIAG_PRE && loom->rank_enabled == 0)
 __CPROVER_requires(w_rm_n == PLEN3(loom) && w_rm_old_min == loom->rank_min && w_rm_old_enabled == loom->rank_enabled &&
-	(P0(loom) == NULL || (w_rm_rank[0] == P0(loom)->rank &&
-	(P1(loom) == NULL || (w_rm_rank[1] == P1(loom)->rank &&
-	(P2(loom) == NULL || w_rm_rank[2] == P2(loom)->rank))))))
+	(P0(loom) == NULL || (w_rm_rank0 == P0(loom)->rank &&
+	(P1(loom) == NULL || (w_rm_rank1 == P1(loom)->rank &&
+	(P2(loom) == NULL || w_rm_rank2 == P2(loom)->rank))))))
 __CPROVER_assigns(loom->rank_enabled, loom->rank_min, DIAG_FRAME)
 /* refused exactly when already set, or some processes have a rank and others do not */
 __CPROVER_ensures((RV == 0) == (w_rm_old_min == INT_MAX && (!RM_SOME || RM_NONE_LACKS)))
@@ -546,12 +546,12 @@ void h_loom_set_rank_min(void)
 {
 	struct loom *loom;
 	int r = loom_set_rank_min(loom);
-	if (r == 0 && w_rm_n == 3 && RM_SOME && w_rm_rank[1] < w_rm_rank[0] && w_rm_rank[1] < w_rm_rank[2]) REACH("minimum is the middle process");
-	if (r == 0 && w_rm_n == 3 && RM_SOME && w_rm_rank[2] < w_rm_rank[0] && w_rm_rank[2] < w_rm_rank[1]) REACH("minimum is the last process");
+	if (r == 0 && w_rm_n == 3 && RM_SOME && w_rm_rank1 < w_rm_rank0 && w_rm_rank1 < w_rm_rank2) REACH("minimum is the middle process");
+	if (r == 0 && w_rm_n == 3 && RM_SOME && w_rm_rank2 < w_rm_rank0 && w_rm_rank2 < w_rm_rank1) REACH("minimum is the last process");
 	if (r == 0 && w_rm_n == 2 && !RM_SOME) REACH("no rank information accepted");
 	if (r == 0 && w_rm_n == 0) REACH("loom without processes");
-	if (r != 0 && w_rm_old_min == INT_MAX && w_rm_n == 3 && w_rm_rank[0] >= 0 && w_rm_rank[2] < 0) REACH("mixed rank / no rank refused (first has)");
-	if (r != 0 && w_rm_old_min == INT_MAX && w_rm_n == 2 && w_rm_rank[0] < 0 && w_rm_rank[1] >= 0) REACH("mixed rank / no rank refused (first lacks)");
+	if (r != 0 && w_rm_old_min == INT_MAX && w_rm_n == 3 && w_rm_rank0 >= 0 && w_rm_rank2 < 0) REACH("mixed rank / no rank refused (first has)");
+	if (r != 0 && w_rm_old_min == INT_MAX && w_rm_n == 2 && w_rm_rank0 < 0 && w_rm_rank1 >= 0) REACH("mixed rank / no rank refused (first lacks)");
 	if (r != 0 && w_rm_old_min != INT_MAX) REACH("rank_min already set refused");
 }
 
